@@ -31,8 +31,8 @@ def main(argv):
         return st(argv[1:])
     try:
         mod = importlib.import_module('sa.rules.%s' % pid.lower())
-    except ImportError as e:
-        print('ANALYSIS-ERROR no rule module for %s (%s)' % (pid, e))
+    except Exception as e:   # noqa: a broken checker is never a verdict
+        print('ANALYSIS-ERROR cannot load the rules of %s (%r)' % (pid, e))
         return 2
     if explain:
         try:
@@ -45,4 +45,11 @@ def main(argv):
 
 
 if __name__ == '__main__':
-    sys.exit(main(sys.argv[1:]))
+    try:
+        rc = main(sys.argv[1:])
+    except SystemExit:
+        raise
+    except BaseException as e:   # noqa
+        print('ANALYSIS-ERROR checker crashed: %r' % (e,))
+        rc = 2
+    sys.exit(rc)
